@@ -173,9 +173,10 @@ static Plan gen_hist(u64 seed) {
         if (r.chance(1, 2)) {    // glyph data: a glyph that fails to load lazily, again and again
             static const char *gt[] = {"glyf", "loca", "hmtx", "Glat", "Gloc"};
             for (int t = 0; t < 20; ++t) { f = gen_store_fault(r, *fi); bool ok = false; for (auto *g : gt) if (f.tag == g) ok = true; if (ok && (f.kind == "BITROT" || f.kind == "SETBYTES" || f.kind == "TORN")) break; f.kind.clear(); }
-        } else if (r.chance(1, 2)) f = gen_code_fault(r, *fi);
+        } else if (r.chance(1, 3)) f = gen_code_fault(r, *fi);
+        else if (r.chance(1, 2)) f = gen_pseudo_fault(r, *fi);
         else { for (int t = 0; t < 10; ++t) { f = gen_store_fault(r, *fi); if (f.kind == "BITROT" || f.kind == "SETBYTES") break; f.kind.clear(); } }
-        if (!f.kind.empty() && !(f.kind == "CODEROT" && f.a.empty())) { f.nth = -1; mf.faults.push_back(f); }
+        if (!f.kind.empty() && !((f.kind == "CODEROT" || f.kind == "SETBYTES") && f.a.empty())) { f.nth = -1; mf.faults.push_back(f); }
     }
     p.ops.push_back(mf);
     Op rep = mk("face_query", {0, 9, 0}); rep.s = "report"; p.ops.push_back(rep);
